@@ -253,8 +253,8 @@ class SinkEnv:
     """`&mut dyn Write`: every write/write_all/write_fmt call is logged; the K-th call fails for a solver-chosen K
     (K = 0: never fails).  After the failure every further call is logged as 'AFTER-FAIL' (and fails too)."""
 
-    def __init__(self, tag='W', may_fail=True):
-        self.tag = tag; self.may_fail = may_fail
+    def __init__(self, tag='W', may_fail=True, may_short=True):
+        self.tag = tag; self.may_fail = may_fail; self.may_short = may_short
         self.K = z3.Int(f'{tag}_fail_at')
 
     def log(self, st):
@@ -296,12 +296,30 @@ class SinkEnv:
         else:
             return None
         def g():
+            # a previous short `write` is considered continued by any further call (content is not tracked)
+            if st.env.get('short:' + self.tag) is not None:
+                st.env['short:' + self.tag] = None
             for s2, ok in self.write(ctx.ex, st, entry):
                 if m == 'write':
-                    yield s2, 'ret', (Ok(Int(z3.BitVec(f'{self.tag}_n{len(self.log(s2))}', 64), 'usize')) if ok else io_err)
+                    if not ok:
+                        yield s2, 'ret', io_err; continue
+                    # io::Write::write may accept only part of the buffer (documented contract): fork full / short
+                    if self.may_short:
+                        sv = z3.Bool(f'{self.tag}_short{len(self.log(s2))}')
+                        for s3, short in ctx.ex.fork_bool(s2, sv):
+                            if short:
+                                s3.env['short:' + self.tag] = entry
+                                yield s3, 'ret', Ok(Int(1, 'usize'))
+                            else:
+                                yield s3, 'ret', Ok(Int(z3.BitVec(f'{self.tag}_len{len(self.log(s3))}', 64), 'usize'))
+                    else:
+                        yield s2, 'ret', Ok(Int(z3.BitVec(f'{self.tag}_len{len(self.log(s2))}', 64), 'usize'))
                 else:
                     yield s2, 'ret', (Ok(UNIT) if ok else io_err)
         return g()
+
+    def short_pending(self, st):
+        return st.env.get('short:' + self.tag)
 
     def abs(self):
         return Abs('sink:' + self.tag, self.handler, self)
